@@ -31,6 +31,47 @@ add("C01", "exploration",
     "Fock truncation self-test; nothing about inputs not generated",
     "DESIGN.md 3/C01")
 
+add("C02", "exploration",
+    "differential runtime monitor (TEMPO vs PT-TEMPO per step, prefix, epsrel "
+    "ladder) + offline trace check of recorded callable sample times",
+    "Two executions of the real code that must agree are compared at every "
+    "step on seeded random non-commuting (time-dependent, dissipative) "
+    "systems; prefixes of a long process tensor against exact-n process "
+    "tensors; the bound is required at three tolerances with one constant; "
+    "recording probes on H(t), gamma(t), A(t) must show exactly the sample "
+    "times start+k dt+dt/4,+3dt/4 in both back-ends.",
+    "conditioning guard R<=8; bound constant calibrated on the unchanged tree",
+    "DESIGN.md 3/C02")
+add("C03", "exploration",
+    "runtime reference-model monitor: hand-built ancilla process tensors vs "
+    "dense joint density-matrix evolution",
+    "compute_dynamics is compared at every step with an independent dense "
+    "evolution of system+ancillas for 0..3 environments, all list "
+    "permutations, rank-3/4 tensors, transforms, explicit/computed caps, "
+    "export/import round trips, time-dependent systems and stacked controls; "
+    "order independence only where exact; summed spectral densities on "
+    "PT-TEMPO tensors.",
+    "dense model is independent einsum/Kraus code; order independence judged "
+    "only for commuting environment maps",
+    "DESIGN.md 3/C03")
+add("C05", "exploration",
+    "icontract class invariant on Bath + metamorphic (rotated basis) runtime "
+    "monitor for three methods",
+    "Every Bath constructed in the workload is checked by an invariant "
+    "(unitary transform, real diagonal eigenvalues) and for reconstruction / "
+    "acceptance over engineered degenerate spectra; rotated simulations must "
+    "equal V rho V^dag for Tempo, PT-TEMPO and MeanFieldTempo.",
+    "conditioning guard; eigenvalues closer than 1e-10 treated as degenerate",
+    "DESIGN.md 3/C05")
+add("C06", "exploration",
+    "differential runtime monitor unique=True vs unique=False",
+    "Same computation with and without degeneracy reduction for three "
+    "methods over lattice spectra with many coincidences of sums and "
+    "differences; non-trivial only if the library's own degeneracy maps "
+    "really merged classes.",
+    "conditioning guard; bound 200*epsrel*scale for two truncated runs",
+    "DESIGN.md 3/C06")
+
 NOT_APPLICABLE = []
 
 
